@@ -13,11 +13,53 @@ import (
 type (
 	// Locker is sync.Locker.
 	Locker = sync.Locker
-	// Pool is sync.Pool.
-	Pool = sync.Pool
 	// Map is sync.Map.
 	Map = sync.Map
 )
+
+// Pool replaces sync.Pool (whose reuse depends on which P a goroutine happens
+// to run on) by a last-in first-out free list that belongs to one simulated
+// run: what was put is what the next Get returns, in every replay, and nothing
+// is carried over from one run of the process to the next.
+type Pool struct {
+	New func() any
+
+	mu    sync.Mutex
+	owner *zzsim.Sim
+	items []any
+}
+
+// Get takes the most recently put item, or makes a new one.
+func (p *Pool) Get() any {
+	p.mu.Lock()
+	if s := zzsim.Current(); s != p.owner {
+		p.owner, p.items = s, nil
+	}
+	if n := len(p.items); n > 0 {
+		x := p.items[n-1]
+		p.items = p.items[:n-1]
+		p.mu.Unlock()
+		return x
+	}
+	p.mu.Unlock()
+	if p.New != nil {
+		return p.New()
+	}
+	return nil
+}
+
+// Put gives an item back.
+func (p *Pool) Put(x any) {
+	if x == nil {
+		return
+	}
+	p.mu.Lock()
+	if s := zzsim.Current(); s != p.owner {
+		p.owner, p.items = s, nil
+	}
+	p.items = append(p.items, x)
+	p.mu.Unlock()
+}
 
 // Mutex is a channel based sync.Mutex.
 type Mutex struct {
